@@ -1,8 +1,9 @@
 import ALV.Common.Json
 import ALV.Model.C14
+import ALV.Model.C14Call
 import ALV.Spec.C14
 namespace ALV.Driver.C14
-open ALV ALV.J ALV.C14
+open ALV ALV.J ALV.C14 ALV.Gen.Windows
 
 /-- Python does not produce `inf`/`nan` where IEEE arithmetic does: `0.0 ** negative` and `x / 0.0`
     (C: `inf`) raise `ZeroDivisionError`; an invalid operation (C: `nan`) is either `0.0 / 0.0`
@@ -57,9 +58,76 @@ def handleCall (j : Json) : Except String Json := do
             ("cola4", optJson floatToJson (colaConst k ((alpha <|> (k.alphaDefault : Option Float)).getD 0) 4))]
     pure <| Json.mkObj [("model", outcomeToJson model), ("func", optJson funcToJson fn), ("spec", spec)]
 
+/-- {"t": "int"|"bool"|"float"|"frac"|"none"|"str", "v": …} -/
+def getVal (j : Json) : Except String Val := do
+  match ← getStr (← field j "t") with
+  | "int" => pure (.int (← getInt (← field j "v")))
+  | "bool" => pure (.bool (← getBool (← field j "v")))
+  | "float" => pure (.float (← getRat (← field j "v")))
+  | "frac" => pure (.frac (← getRat (← field j "v")))
+  | "none" => pure .none
+  | "str" => pure .str
+  | s => throw s!"C14: unknown value kind {s}"
+
+def getRoute (j : Json) : Except String Route := do
+  match ← getStr (← field j "route") with
+  | "item" => pure .item
+  | "dflt" => pure .dflt
+  | "dictlink:symm" => pure (.dictLink "symm")
+  | "dictlink:periodic" => pure (.dictLink "periodic")
+  | "funclink:symm" => pure (.funcLink "symm")
+  | "funclink:periodic" => pure (.funcLink "periodic")
+  | s => throw s!"C14: unknown route {s}"
+
+/-- {"dict", "name": str|null, "route", "pos": [val], "kw": [[key, val]],
+     "spec_call": null | {"symm": bool, "kind": str, "size": nat, "alpha": number|null}}:
+    the call as the caller writes it through the model of the call layer (`pyCall`); `spec_call` is the
+    same call reduced by the harness, with the DOCUMENTED rules, to the terms of the property. -/
+def handlePyCall (j : Json) : Except String Json := do
+    let d ← getDict j
+    let name ← (optField j "name").mapM getStr
+    let route ← getRoute j
+    let pos ← getList getVal (← field j "pos")
+    let kw ← getList (fun p => do
+      let l ← getArr p
+      match l with
+      | [k, v] => pure (← getStr k, ← getVal v)
+      | _ => throw "C14: bad keyword pair") (← field j "kw")
+    let model := pyCall (α := Float) d name route { pos := pos, kw := kw }
+    let fn := match resolveRoute d name route with | .ok f => some f | .error _ => none
+    let spec : Json ← match optField j "spec_call" with
+      | none => pure Json.null
+      | some sc => do
+        let symm ← getBool (← field sc "symm")
+        let size ← getNat (← field sc "size")
+        let alpha ← (optField sc "alpha").mapM getFloat
+        match Kind.all.find? (fun k => k.sname == (match getStr (fieldD sc "kind" Json.null) with | .ok s => s | .error _ => "")) with
+        | none => pure Json.null
+        | some k =>
+          match specList (α := Float) k (symm && k.distinct) alpha size with
+          | none => pure Json.null
+          | some xs =>
+            if xs.any (fun x => x.isInf) then pure Json.null
+            else pure <| Json.mkObj [
+              ("ok", arr floatToJson xs),
+              ("kind", Json.str k.sname), ("symm", Json.bool (symm && k.distinct)),
+              ("alpha", optJson floatToJson (alpha <|> (k.alphaDefault : Option Float))),
+              ("cola2", optJson floatToJson (colaConst k ((alpha <|> (k.alphaDefault : Option Float)).getD 0) 2)),
+              ("cola4", optJson floatToJson (colaConst k ((alpha <|> (k.alphaDefault : Option Float)).getD 0) 4))]
+    pure <| Json.mkObj [("model", outcomeToJson model), ("func", optJson funcToJson fn), ("spec", spec)]
+
 def handle (entry : String) (j : Json) : Except String Json := do
   match entry with
   | "call" => handleCall j
+  | "pycall" => handlePyCall j
+  | "tables" =>
+    -- the regenerated tables, for the structural checks of the harness (signature of every generated function)
+    let sigJson (ps : List Param) := arr (fun (p : Param) => Json.arr [Json.str p.name,
+      optJson (fun (l : Lit) => Json.arr [intToJson l.num, natToJson l.den, Json.bool l.isInt]) p.dflt]) ps
+    pure <| Json.mkObj [
+      ("rows", arr (fun (r : Row) => Json.mkObj [("names", arr Json.str r.names), ("distinct", Json.bool r.distinct),
+        ("window_sig", sigJson (funcSig windowSig r)), ("wsymm_sig", sigJson (funcSig wsymmSig r))]) rows),
+      ("dict_links", arr (fun (l : String × String × String) => Json.arr [Json.str l.1, Json.str l.2.1, Json.str l.2.2]) dictLinks)]
   | "history" =>
     -- {"calls": [call, ...]}: a history of calls between which the CALLER changes, in place, the lists it
     -- received.  The model of a history (`runHistory`) answers every call by `call` of that call's own
